@@ -207,6 +207,10 @@ def judge_split(d):
                 items.append((key, res.get(key), res2.get(key), sub.molecules.features["uid"].to_list(), sub.average()))
         else:
             h = loader.average_split(n_set=d["n_set"], seed=d["split_seed"], squeeze=False)
+            h = np.array(h, copy=True)
+            # an FSC evaluation in between (it normalises its own half maps) must not change what the next call returns
+            if d.get("fsc_between"):
+                loader.fsc(seed=d["split_seed"], n_set=d["n_set"])
             h2 = loader.average_split(n_set=d["n_set"], seed=d["split_seed"], squeeze=False)
             items = [("all", h, h2, order_uids, loader.average())]
             fh = loader.fsc_with_halfmaps(seed=d["split_seed"], n_set=d["n_set"], zero_norm=False, squeeze=False)
@@ -283,7 +287,7 @@ def split_cases(draw):
     return {"loader": kind, "n": n, "shape": draw(gen.box_shapes(1, 5)), "scale": draw(st.sampled_from([1.0, 0.5, 2.0])),
             "ntomo": draw(st.integers(2, 3)) if kind == "batch" else 1, "tomo_of": [draw(st.integers(0, 2)) for _ in range(16)],
             "grp": grp, "n_set": draw(st.integers(1, 3)), "split_seed": draw(st.integers(0, 10 ** 6)),
-            "chunks": draw(st.sampled_from([None, "dask"]))}
+            "chunks": draw(st.sampled_from([None, "dask"])), "fsc_between": draw(st.booleans())}
 
 
 def nontrivial(d):
